@@ -775,6 +775,46 @@ theorem simple_glyph_eq_applyDecoded (ax : Nat) (shared : List (List Int)) (byte
   rw [hzero]
   exact fold_eq_decoded points ends g.sharedPts _ dts _ hlen (by simp) hdec
 
+/-- the scalar of every ACTIVE tuple is in `(0, 65536]`, derived from `compute_scalar` (`tupleScalar`):
+peaks, intermediate coordinates and the location are F2Dot14 (i16) values and no intermediate region
+straddles zero (`InterOk`, where the code follows FreeType). -/
+theorem active_tuple_scalar_range (ax : Nat) (shared : List (List Int)) (g : GlyphRead) (coords : List Int)
+    (hco : ∀ v ∈ coords, inI16 v)
+    (hreg : ∀ t ∈ g.tuples, (∀ v ∈ t.peakOf shared, inI16 v) ∧
+      InterOk ((t.inter.map (·.1)).getD []) ((t.inter.map (·.2)).getD [])) :
+    ∀ a ∈ activeTuples ax shared g coords, 0 < a.2 ∧ a.2 ≤ 65536 := by
+  intro a ha
+  unfold activeTuples at ha
+  obtain ⟨t, ht, hm⟩ := List.mem_filterMap.mp ha
+  obtain ⟨hp, hi⟩ := hreg t ht
+  cases hs : tupleScalar ax (t.peakOf shared) t.inter coords with
+  | none => rw [hs] at hm; cases hm
+  | some s =>
+    rw [hs] at hm
+    simp only [Option.map_some, Option.some.injEq] at hm
+    subst hm
+    show 0 < s ∧ s ≤ 65536
+    unfold tupleScalar at hs
+    by_cases hl : (t.peakOf shared).length ≠ ax
+    · simp [hl] at hs
+    · simp only [hl, if_false] at hs
+      have h := scalarGo_tent t.inter.isSome (t.peakOf shared) ((t.inter.map (·.1)).getD [])
+        ((t.inter.map (·.2)).getD []) coords 65536 1 1 0 hp hco hi (by omega) (by omega) (by omega)
+        (by simp) (by simp)
+      cases htg : tentGo t.inter.isSome (1, 1, 0) (t.peakOf shared) ((t.inter.map (·.1)).getD [])
+          ((t.inter.map (·.2)).getD []) coords with
+      | none => rw [htg] at h; simp only [] at h; rw [h] at hs; cases hs
+      | some r =>
+        obtain ⟨N, D, k⟩ := r
+        rw [htg] at h
+        obtain ⟨s', e, s0, s1, _⟩ := h
+        rw [e] at hs
+        simp only [] at hs
+        by_cases hz : s' = 0
+        · simp [hz] at hs
+        · simp only [hz, if_false, Option.some.injEq] at hs
+          omega
+
 /-- **`simple_glyph_within_rounding`** — from the glyph-variation-data BYTES to both output coordinates
 of every contour point, for sparse (`SparseWF`) and all-points (`DenseWF`) active tuples alike. -/
 theorem simple_glyph_within_rounding (ax : Nat) (shared : List (List Int)) (bytes : List Nat)
@@ -785,7 +825,9 @@ theorem simple_glyph_within_rounding (ax : Nat) (shared : List (List Int)) (byte
     (hfit : 131072 * M + 4 * (Δ * 65536) + 65536 ≤ 2147483647)
     (hpts : ∀ k, (-M ≤ (Iup.getP points k).1 ∧ (Iup.getP points k).1 ≤ M) ∧
       (-M ≤ (Iup.getP points k).2 ∧ (Iup.getP points k).2 ≤ M))
-    (hscal : ∀ a ∈ activeTuples ax shared g coords, 0 < a.2 ∧ a.2 ≤ 65536)
+    (hco : ∀ v ∈ coords, inI16 v)
+    (hreg : ∀ t ∈ g.tuples, (∀ v ∈ t.peakOf shared, inI16 v) ∧
+      InterOk ((t.inter.map (·.1)).getD []) ((t.inter.map (·.2)).getD []))
     (c : Nat × Nat) (hc : c ∈ contoursOf 0 ends) (k : Nat) (hk1 : c.1 ≤ k) (hk2 : k ≤ c.2)
     (h4 : 4 ≤ points.length)
     (hlen : (activeTuples ax shared g coords).length = ts.length)
@@ -816,6 +858,7 @@ theorem simple_glyph_within_rounding (ax : Nat) (shared : List (List Int)) (byte
             (Iup.inferSpec (points.drop c.1) ((t.ds.drop c.1).take (c.2 - c.1 + 1)) (t.has.drop c.1) (k - c.1)).2.2)).sum / 65536)|
       ≤ 1 / 2 + (ts.map fun t =>
           (((Iup.inferSpec (points.drop c.1) ((t.ds.drop c.1).take (c.2 - c.1 + 1)) (t.has.drop c.1) (k - c.1)).2.2 : ℚ) - 1) / 2).sum / 65536 := by
+  have hscal := active_tuple_scalar_range ax shared g coords hco hreg
   have hts : ∀ t ∈ ts, t.has.length = np ∧ t.ds.length = np ∧ (0 < t.s ∧ t.s ≤ 65536) ∧
       (∀ k, (-Δ ≤ (Iup.getP t.ds k).1 ∧ (Iup.getP t.ds k).1 ≤ Δ) ∧ (-Δ ≤ (Iup.getP t.ds k).2 ∧ (Iup.getP t.ds k).2 ≤ Δ)) ∧
       (∀ k, t.has.getD k false = false → Iup.getP t.ds k = (0, 0)) := by
@@ -940,7 +983,14 @@ the reader's view (`peak`, region, `deltas()`) of the written tuples; deriving f
 tuples of the written bytes satisfy `SparseWF ∨ DenseWF` needs the stream structure inside its proof
 (`ptsAndDeltas = (packed points ++ rest, encodeDeltas xs ++ encodeDeltas ys)`) exported, plus a
 `read_dense_deltas` analogue of `readSparse_runs`; and the identification of the decoded tuples' `ds`
-with the input deltas restricted to the kept set. -/
+with the input deltas restricted to the kept set.  STATE: for ONE written tuple with explicit point
+numbers both are proved (`written_sparse_tuple_stream_wf`: all stream conjuncts of `SparseWF`, values read =
+input deltas of the kept points); still missing: the all-points analogue (`readDense` over `runsOf`), the
+glyph-level plumbing (which tuple reads private vs shared point numbers: `RawTuple.ptsAndDeltas g.sharedPts`
+of each tuple `readGlyph` returns = the writer's `(pb ++ junk, encodeDeltas xs ++ encodeDeltas ys)`, to be
+exported from `built_view` / `built_list` / `writeGlyphWith_roundtrip`), and feeding
+`iup_delta_optimize_sound` for the τ hypothesis.  The active-tuple scalar range is now derived
+(`active_tuple_scalar_range`). -/
 /-- **`written_then_applied_within_tolerance_partial`** -/
 theorem written_then_applied_within_tolerance_partial (ax : Nat) (shared : List (List Int)) (bytes : List Nat)
     (coords : List Int) (g : GlyphRead) (hr : readGlyph ax bytes = some g)
@@ -950,7 +1000,9 @@ theorem written_then_applied_within_tolerance_partial (ax : Nat) (shared : List 
     (hfit : 131072 * M + 4 * (Δ * 65536) + 65536 ≤ 2147483647)
     (hpts : ∀ k, (-M ≤ (Iup.getP points k).1 ∧ (Iup.getP points k).1 ≤ M) ∧
       (-M ≤ (Iup.getP points k).2 ∧ (Iup.getP points k).2 ≤ M))
-    (hscal : ∀ a ∈ activeTuples ax shared g coords, 0 < a.2 ∧ a.2 ≤ 65536)
+    (hco : ∀ v ∈ coords, inI16 v)
+    (hreg : ∀ t ∈ g.tuples, (∀ v ∈ t.peakOf shared, inI16 v) ∧
+      InterOk ((t.inter.map (·.1)).getD []) ((t.inter.map (·.2)).getD []))
     (c : Nat × Nat) (hc : c ∈ contoursOf 0 ends) (k : Nat) (hk1 : c.1 ≤ k) (hk2 : k ≤ c.2)
     (h4 : 4 ≤ points.length)
     (hlen : (activeTuples ax shared g coords).length = ts.length)
@@ -982,7 +1034,8 @@ theorem written_then_applied_within_tolerance_partial (ax : Nat) (shared : List 
         - (((Iup.getP points k).2 : ℚ) + (ts.map fun t => (t.s : ℚ) * dy t).sum / 65536)|
       ≤ 1 / 2 + (ts.map fun t =>
           (((Iup.inferSpec (points.drop c.1) ((t.ds.drop c.1).take (c.2 - c.1 + 1)) (t.has.drop c.1) (k - c.1)).2.2 : ℚ) - 1) / 2).sum / 65536 + (ts.map fun t => (t.s : ℚ) * τ).sum / 65536 := by
-  obtain ⟨deltas, e, b1, b2⟩ := simple_glyph_within_rounding ax shared bytes coords g hr np points ends ts hpl hwf hne M Δ hM hΔ hfit hpts hscal c hc k hk1 hk2 h4 hlen hswf hwrap hwrapy
+  have hscal := active_tuple_scalar_range ax shared g coords hco hreg
+  obtain ⟨deltas, e, b1, b2⟩ := simple_glyph_within_rounding ax shared bytes coords g hr np points ends ts hpl hwf hne M Δ hM hΔ hfit hpts hco hreg c hc k hk1 hk2 h4 hlen hswf hwrap hwrapy
   have hwpos : ∀ t ∈ ts, (0 : ℚ) ≤ (t.s : ℚ) := by
     intro t ht
     obtain ⟨a, ha⟩ := mem_zip_of_mem_right _ ts hlen t ht
